@@ -62,6 +62,24 @@ func parseCIface(lex *lexer.PeekingLexer) (CIface, error) {
 	return PWord{W: t.Value}, nil
 }
 
+// PIdent is a grammar node implemented by user code that LOOKS by consuming: it takes the next token with Next() and
+// reports "no match" (NextMatch) afterwards unless it is an Ident.  The case files use it only at the head of an alternative or
+// of an optional / repeated group, where the attempt runs on a branch of the lexer that is dropped on "no match".
+type PIdent struct {
+	W string
+}
+
+func (p *PIdent) Parse(lex *lexer.PeekingLexer) error {
+	t := lex.Next()
+	if t.EOF() || identType == 0 || t.Type != identType {
+		return participle.NextMatch
+	}
+	p.W = t.Value
+	return nil
+}
+
+var identType = coreLexer.Symbols()["Ident"]
+
 // PWord is a grammar node implemented by user code (participle.Parseable): it takes exactly one token with Next().
 type PWord struct {
 	W string
@@ -150,6 +168,10 @@ func buildWith(g *gGrammar, k int, extra ...participle.Option) (b *built, err er
 				t = reflect.TypeOf(true)
 			case "int8", "int16", "int32", "int64", "int", "uint8", "uint16", "uint32", "uint64", "uint", "float32", "float64":
 				t = numTypes[kind]
+			case "int8s", "uint8s", "int16s", "int64s":
+				t = reflect.SliceOf(numTypes[strings.TrimSuffix(kind, "s")])
+			case "unode2":
+				t = reflect.TypeOf(&PIdent{})
 			case "node":
 				t = reflect.PtrTo(types[arg])
 			case "nodes":
@@ -230,7 +252,12 @@ func buildWith(g *gGrammar, k int, extra ...participle.Option) (b *built, err er
 		}
 	}
 	if g.CI {
-		opts = append(opts, participle.CaseInsensitive("Ident"))
+		// options are order independent: for every other grammar CaseInsensitive comes before Lexer
+		if len(g.Prods)%2 == 0 {
+			opts = append([]participle.Option{participle.CaseInsensitive("Ident")}, opts...)
+		} else {
+			opts = append(opts, participle.CaseInsensitive("Ident"))
+		}
 	}
 	for _, p := range g.Prods {
 		for _, f := range p.Fields {
@@ -316,6 +343,10 @@ func canon(names map[reflect.Type]string, v reflect.Value, toks map[lexer.Positi
 		}
 		if v.Type() == reflect.TypeOf(CapList{}) {
 			canon(names, v.Field(0), toks, sb) // printed like the []string it accumulates
+			return
+		}
+		if v.Type() == reflect.TypeOf(PIdent{}) {
+			fmt.Fprintf(sb, "PIdent{W=%q}", v.Field(0).String())
 			return
 		}
 		if v.Type() == reflect.TypeOf(PWord{}) {
@@ -806,6 +837,8 @@ func traceLines(text string) string {
 			kind = "look"
 		case gs == "URoot" || gs == "U0" || gs == "U1" || gs == "U2" || gs == "U3":
 			kind = "union"
+		case strings.HasSuffix(gs, "PIdent"):
+			kind = "user2"
 		case strings.HasSuffix(gs, "PWord") || gs == "CIface":
 			kind = "user"
 		}
@@ -1103,6 +1136,72 @@ func posfieldsStatic(args []string) error {
 			status = "BAD"
 		}
 		fmt.Printf("%s\t%q\tplain %v; own fields shadowing an embedded struct %v; fields promoted from an embedded struct %v\n", status, in, a, b, c)
+	}
+	return nil
+}
+
+func init() { commands["option-order"] = optionOrder }
+
+type kwGrammar struct {
+	K string   `@"select":Keyword`
+	N []string `@Ident*`
+	S string   `@String?`
+}
+
+// option-order: Build options given in every order must give the same parser; prints "OK|BAD\tinput\tdetail".
+func optionOrder(args []string) error {
+	lx := lexer.MustSimple([]lexer.SimpleRule{
+		{Name: "WS", Pattern: `\s+`}, {Name: "Int", Pattern: `\d+`}, {Name: "String", Pattern: `"[^"]*"`},
+		{Name: "Keyword", Pattern: `(?i)select\b`}, {Name: "Ident", Pattern: `[a-zA-Z]+`},
+	})
+	opts := []struct {
+		name string
+		o    participle.Option
+	}{
+		{"Lexer", participle.Lexer(lx)}, {"CaseInsensitive", participle.CaseInsensitive("Keyword")}, {"Elide", participle.Elide("WS")},
+		{"Unquote", participle.Unquote("String")}, {"Upper", participle.Upper("Ident")},
+	}
+	inputs := []string{"select x", "SELECT x y", `Select y "q r"`, "sElEcT", "x select"}
+	ref := map[string]string{}
+	perm := []int{0, 1, 2, 3, 4}
+	var rec func(k int)
+	bad := 0
+	rec = func(k int) {
+		if k == len(perm) {
+			var os []participle.Option
+			names := []string{}
+			for _, i := range perm {
+				os = append(os, opts[i].o)
+				names = append(names, opts[i].name)
+			}
+			p, err := participle.Build[kwGrammar](os...)
+			for _, in := range inputs {
+				res := ""
+				if err != nil {
+					res = "builderr " + err.Error()
+				} else if v, perr := p.ParseString("", in); perr != nil {
+					res = "err " + perr.Error()
+				} else {
+					res = fmt.Sprintf("ok %+v", *v)
+				}
+				if r0, ok := ref[in]; !ok {
+					ref[in] = res
+				} else if r0 != res && bad < 5 {
+					bad++
+					fmt.Printf("BAD\t%q\twith the options in the order %v: %s; in the order Lexer, CaseInsensitive, Elide, Unquote, Upper: %s\n", in, names, res, r0)
+				}
+			}
+			return
+		}
+		for i := k; i < len(perm); i++ {
+			perm[k], perm[i] = perm[i], perm[k]
+			rec(k + 1)
+			perm[k], perm[i] = perm[i], perm[k]
+		}
+	}
+	rec(0)
+	for _, in := range inputs {
+		fmt.Printf("OK\t%q\t%s\n", in, ref[in])
 	}
 	return nil
 }
